@@ -172,6 +172,27 @@ Definition parse_credentials (s : bytes) : option (bytes * list field) :=
   | _, _ => None
   end.
 
+(* ---------- well-formedness of what is rendered (executable; used by theorems and checker) ---------- *)
+
+(* token = 1*tchar *)
+Definition tokenb (s : bytes) : bool :=
+  match s with [] => false | _ => forallb is_tchar s end.
+
+(* no double quote, no backslash: what a value written verbatim between quotes must satisfy *)
+Definition clean (s : bytes) : bool := negb (mem_byte dquote s) && negb (mem_byte bslash s).
+
+(* an Authorization parameter a recipient can read back: lower-case token name; a token where
+   written bare; anything where escaped; clean where written verbatim between quotes *)
+Definition field_ok (f : field) : bool :=
+  tokenb (fst f) && bytes_eqb (to_lower (fst f)) (fst f) &&
+  match snd f with
+  | Quoted _ => true
+  | QuotedRaw v => negb (mem_byte dquote v) && negb (mem_byte bslash v)
+  | Bare v => tokenb v
+  end.
+
+Definition sem_field (f : field) : field := (fst f, fval_sem (snd f)).
+
 Fixpoint assoc_bytes {A} (k : bytes) (l : list (bytes * A)) : option A :=
   match l with
   | [] => None
